@@ -19,7 +19,7 @@ import random
 import re
 import shutil
 
-from .. import cbi, core, runner, scen
+from .. import cbi, core, runner, scen, trace_preproc
 from . import C04, C06
 
 INC_RE = re.compile(r"^(.*?):(\d+): (user|system) include '([^']*)' not found")
@@ -107,7 +107,11 @@ def replay_chunk(args):
                     err = (type(e).__name__, str(e), "")
                 recs = list(h.records)
             if err is None:
-                st, cb, logs, err = cbi.run_find(m.root, conf)
+                if si % 4 == 0:
+                    st, cb, logs, err, trs = cbi.run_find_traced(m.root, conf, base, f"c18:{si}")
+                    stats.setdefault("traces", []).extend(trs)
+                else:
+                    st, cb, logs, err = cbi.run_find(m.root, conf)
                 recs += logs
             d = []
             if err is not None:
@@ -205,14 +209,17 @@ def run(ctx):
     ctx.cov["scenarios"] = len(cases)
     ctx.sample({"ents": cases[0]["ents"], "expected": cases[0]["warn"], "include_warnings": [r["warns"] for r in cases[0]["res"]]})
     work = ctx.scratch()
+    loaded = []
     jobs = [(c, ctx.seed, work, 6 if q else 3) for c in runner.chunks(cases, runner.NCPU * 2)]
     for lst in runner.pmap(_jobs, jobs, chunk=1):
         for fails, stats in lst:
             ctx.cov["evaluations"] += stats["evals"]
             ctx.cov["distinct_nontrivial"] += stats["nontrivial"]
             ctx.cov["skipped"] = ctx.cov.get("skipped", 0) + stats["skipped"]
+            loaded.extend(stats.get("traces", []))
             for f in fails:
                 ctx.fail(f["layer"], f["tags"], f["symptom"], f["detail"], f["case"])
+    trace_preproc.validate(ctx, [], tag="C18", loaded=loaded)
 
 
 def replay(ctx, path):
